@@ -613,6 +613,49 @@ func (c *caseSt) listAll(variant string) string {
 		}
 		sort.Strings(items)
 		return "{" + strings.Join(items, "|") + "}"
+	case "F", "W":
+		// Go-side ExportTo into TYPED containers: F = float64 keys ([]float64 / map[float64]int64),
+		// W = string keys ([]string / map[string]int64).  Only meaningful when every live key has that type.
+		switch {
+		case c.mode == "set" && variant == "F":
+			var sl []float64
+			if err := c.vm.ExportTo(c.obj, &sl); err != nil {
+				return "exc:exportto"
+			}
+			for _, e := range sl {
+				items = append(items, goCanon(e)+":-")
+			}
+		case c.mode == "set" && variant == "W":
+			var sl []string
+			if err := c.vm.ExportTo(c.obj, &sl); err != nil {
+				return "exc:exportto"
+			}
+			for _, e := range sl {
+				items = append(items, goCanon(e)+":-")
+			}
+		case c.mode == "map" && variant == "F":
+			var m map[float64]int64
+			if err := c.vm.ExportTo(c.obj, &m); err != nil {
+				return "exc:exportto"
+			}
+			for k, v := range m {
+				items = append(items, goCanon(k)+":"+goVal(v))
+			}
+			sort.Strings(items)
+			return "{" + strings.Join(items, "|") + "}"
+		case c.mode == "map" && variant == "W":
+			var m map[string]int64
+			if err := c.vm.ExportTo(c.obj, &m); err != nil {
+				return "exc:exportto"
+			}
+			for k, v := range m {
+				items = append(items, goCanon(k)+":"+goVal(v))
+			}
+			sort.Strings(items)
+			return "{" + strings.Join(items, "|") + "}"
+		default:
+			return "err:unsupported"
+		}
 	case "S":
 		// Go-side ExportTo into a slice (setObject.exportToArrayOrSlice), and into an array of the right length
 		if c.mode != "set" {
